@@ -79,31 +79,53 @@ package bufmodule
 //
 // C09: every accessor of cached module data verifies the digest first, and the verification accepts only
 // content whose recomputed digest equals the digest pinned by the requesting key.
+//
+// The accessors: the digest check runs first; when it fails its error is returned and NO content (tamper => error,
+// never content); when it passes, the content is exactly what the (memoised) getter yields.
 //@ trusted pure interface ModuleKey
-//@ trusted pure func DigestEqual(a, b) (r)
+// DigestEqual (verified against its body; was assumed): equal digests have the same type and the same value bytes;
+// a nil digest equals only a nil digest.
+//@ pure func DigestEqual(a, b) (r)
+//@   property C09
+//@   ensures nil-only-equals-nil: (a == nil) != (b == nil) ==> !r
+//@   ensures both-nil: a == nil && b == nil ==> r
+//@   ensures same-type: r && a != nil ==> a.Type() == b.Type()
+//@   ensures same-value: r && a != nil ==> bytes.Equal(a.Value(), b.Value())
+//@   ensures complete: a != nil && b != nil && a.Type() == b.Type() && bytes.Equal(a.Value(), b.Value()) ==> r
 //@ func (m *moduleData) Bucket() (r, err)
 //@   property C09
 //@   callback pure checkDigest
 //@   callback pure getBucket
 //@   ensures verified-first: err == nil ==> m.checkDigest() == nil
+//@   ensures tamper-is-error: m.checkDigest() != nil ==> err == m.checkDigest() && r == nil
+//@   ensures content-from-getter: m.checkDigest() == nil ==> r == first(m.getBucket()) && err == second(m.getBucket())
 //@ func (m *moduleData) DepModuleKeys() (r, err)
 //@   property C09
 //@   callback pure checkDigest
 //@   callback pure getDepModuleKeys
 //@   ensures verified-first: err == nil ==> m.checkDigest() == nil
+//@   ensures tamper-is-error: m.checkDigest() != nil ==> err == m.checkDigest() && isNilSlice(r)
+//@   ensures content-from-getter: m.checkDigest() == nil ==> r == first(m.getDepModuleKeys()) && err == second(m.getDepModuleKeys())
 //@ func (m *moduleData) V1Beta1OrV1BufYAMLObjectData() (r, err)
 //@   property C09
 //@   callback pure checkDigest
 //@   callback pure getV1BufYAMLObjectData
 //@   ensures verified-first: err == nil ==> m.checkDigest() == nil
+//@   ensures tamper-is-error: m.checkDigest() != nil ==> err == m.checkDigest() && r == nil
+//@   ensures content-from-getter: m.checkDigest() == nil ==> r == first(m.getV1BufYAMLObjectData()) && err == second(m.getV1BufYAMLObjectData())
 //@ func (m *moduleData) V1Beta1OrV1BufLockObjectData() (r, err)
 //@   property C09
 //@   callback pure checkDigest
 //@   callback pure getV1BufLockObjectData
 //@   ensures verified-first: err == nil ==> m.checkDigest() == nil
+//@   ensures tamper-is-error: m.checkDigest() != nil ==> err == m.checkDigest() && r == nil
+//@   ensures content-from-getter: m.checkDigest() == nil ==> r == first(m.getV1BufLockObjectData()) && err == second(m.getV1BufLockObjectData())
 //
 //@ func newModuleData(ctx, moduleKey, getBucket, getDepModuleKeys, getV1BufYAMLObjectData, getV1BufLockObjectData) (r)
 //@   property C09
-//@   modifies heap, ghost.fail, ghost.wfail, ghost.sinkPaths, ghost.sinkBuckets
+//@   modifies heap
+//@   ensures for-key: r != nil && r.moduleKey == moduleKey
 //@   closure 0 ensures true
+//@   assert before "if !DigestEqual(" expected-is-pinned: expectedDigest == first(moduleKey.Digest()) && second(moduleKey.Digest()) == nil
+//@   assert before "return &DigestMismatchError" mismatch-only: !DigestEqual(expectedDigest, actualDigest)
 //@   assert before "return nil" digest-verified: DigestEqual(expectedDigest, actualDigest)
